@@ -189,6 +189,33 @@ def no_address_dependence(rep, prog, rule):
     rep.ok(rule, "kernel-scan", "", "%d calls scanned, %d align_to sites" % (scanned, n))
 
 
+def _plain_rounding(p):
+    """p is min(max_rows, trunc(R(q))) or min(max_rows, trunc(q)) with R in {round, floor} and nothing
+    added: the count is the quotient rounded down / to nearest (floor(q) + 1 and the like are other
+    functions and are not judged)"""
+    def single(q):
+        if len(q) == 1:
+            (m, c), = q.items()
+            if c == 1 and len(m) == 1:
+                return m[0]
+        return None
+    a = single(p)
+    if a is None or a[0] != "min":
+        return False
+    for arg in a[1:]:
+        x = single(dict(arg))
+        if x is None or x[0] != "trunc":
+            continue
+        inner = single(dict(x[1]))
+        if inner is None:
+            return False
+        if inner[0] in ("round", "floor"):
+            return True
+        if inner[0] in ("max",):        # a bare truncation of the clamped quotient
+            return True
+    return False
+
+
 def step_count(rep, prog, rule):
     rep.rule(rule, "every implementation of ImageView::iter_rows_with_step yields a row for every sampling "
              "position start_y + k * step that lies inside the image, up to max_rows: the bound of its "
@@ -228,7 +255,7 @@ def step_count(rep, prog, rule):
                 rep.ok(rule, key, rng[2], "steps = %s" % txt[:100])
             else:
                 rep.unk(rule, key, rng[2], "steps = %s" % txt[:100])
-        elif any(x in names_ for x in ("round", "floor")) or ("trunc" in names_ and "ceil" not in names_):
+        elif _plain_rounding(hi):
             rep.bad(rule, key + "|rows-lost", rng[2],
                     "%s yields steps = %s rows: not rounded up, so for (height - start_y) / step = "
                     "k + 0.49.. (e.g. 128 -> 160 rows) the last sampling position inside the image gets "
